@@ -75,7 +75,7 @@ def exh(acc, k, asg, univ, shard, nshards):
         acc.case(layer)
         r = harness.guarded(acc, "cellpair", {"pts": ASSIGNMENTS[asg][:k], "a": ma, "b": 0, "univ": univ, "op": "not"}, lambda c: ~a, 10, isolate=False)
         if r is not None and mask_of(r) != full & ~ma:
-            acc.fail("cellpair", f"not:{specops.shape(a)}", {"pts": ASSIGNMENTS[asg][:k], "a": ma, "b": 0, "univ": univ, "op": "not"}, expected=bin(full & ~ma), got=describe(r))
+            acc.fail("cellpair", f"not:{specops.cls(a)}", {"pts": ASSIGNMENTS[asg][:k], "a": ma, "b": 0, "univ": univ, "op": "not"}, expected=bin(full & ~ma), got=describe(r))
         for mb in range(1 << n):
             b = objs[mb]
             acc.evaluations += 2
@@ -88,9 +88,9 @@ def exh(acc, k, asg, univ, shard, nshards):
                     harness.process(sys.modules[MOD], acc, "cellpair", {"pts": ASSIGNMENTS[asg][:k], "a": ma, "b": mb, "univ": univ, "op": op}, layer, isolate=False)
                 continue
             if mask_of(r1) != ma & mb:
-                acc.fail("cellpair", f"and:{specops.shape(a)}x{specops.shape(b)}", {"pts": ASSIGNMENTS[asg][:k], "a": ma, "b": mb, "univ": univ, "op": "and"}, expected=bin(ma & mb), got=describe(r1))
+                acc.fail("cellpair", f"and:{specops.cls(a)}x{specops.cls(b)}", {"pts": ASSIGNMENTS[asg][:k], "a": ma, "b": mb, "univ": univ, "op": "and"}, expected=bin(ma & mb), got=describe(r1))
             if mask_of(r2) != ma | mb:
-                acc.fail("cellpair", f"or:{specops.shape(a)}x{specops.shape(b)}", {"pts": ASSIGNMENTS[asg][:k], "a": ma, "b": mb, "univ": univ, "op": "or"}, expected=bin(ma | mb), got=describe(r2))
+                acc.fail("cellpair", f"or:{specops.cls(a)}x{specops.cls(b)}", {"pts": ASSIGNMENTS[asg][:k], "a": ma, "b": mb, "univ": univ, "op": "or"}, expected=bin(ma | mb), got=describe(r2))
             if 0 < ma < full and 0 < mb < full and ((ma & mb) or (bsets[ma] & bsets[mb])):
                 acc.nontrivial_exhaustive += 2
     acc.oracle_evaluations += (1 << n) * len(range(shard, 1 << n, nshards)) * 2
@@ -146,7 +146,7 @@ def evaluate(kind, case, acc):
         if not ok:
             acc.fail(
                 kind,
-                f"{op}:{shapes}",
+                f"{op}:" + "x".join(specops.cls(o) for o in operands),
                 case,
                 expected={"cells": bin(exp), "bounds": [str(b) for b in bs]},
                 got={"cells": bin(got), "result": describe(result), "operands": [describe(o) for o in operands]},
